@@ -37,6 +37,8 @@ type renderedVariant struct {
 	Tags   map[string]bool
 	Dir    string
 	Shape  []string // shape violations found while abstracting ReduceFunc
+	ShapeT []string // shape violations of the rendered code-to-symbol switches (translate, TraceTranslate)
+	NTrans int      // number of translate cases seen
 	Static map[string]string
 }
 
@@ -67,6 +69,19 @@ func extractRendered(src []byte, name string, prelude string, outDir string) (*r
 	if err != nil {
 		return nil, fmt.Errorf("rendered file %s does not parse after abstraction: %v", name, err)
 	}
+	seenT := map[string]bool{}
+	for _, d := range f.Decls {
+		if fd, ok := d.(*ast.FuncDecl); ok && fd.Recv == nil && fd.Body != nil && (fd.Name.Name == "translate" || fd.Name.Name == "TraceTranslate") {
+			seenT[fd.Name.Name] = true
+			rv.lookupSwitchShape(fset, fd)
+		}
+	}
+	for _, n := range []string{"translate", "TraceTranslate"} {
+		if !seenT[n] {
+			rv.ShapeT = append(rv.ShapeT, "no function "+n+" in the rendered file")
+		}
+	}
+	rv.Tags["lr"] = true
 	if strings.Contains(name, "objtrue") {
 		rv.Tags["goObject"] = true
 		rv.Tags["goCode"] = true // the goCode contracts apply through the renamings
@@ -139,6 +154,100 @@ func extractRendered(src []byte, name string, prelude string, outDir string) (*r
 	}
 	os.WriteFile(filepath.Join(dir, "zz_spec_prelude.go"), []byte(pre), 0o644)
 	return rv, nil
+}
+
+// lookupSwitchShape checks that a rendered lookup function (translate: token code -> symbol id, TraceTranslate: symbol id ->
+// name) is nothing but the table its cases spell out:
+//
+//	var conv T = <zero>; switch c { case <int>: conv = <literal> ... }; return conv
+//
+// with one integer literal per case, no default clause, no fallthrough and nothing else - so a value that is not a case
+// label yields the zero value (symbol 0 / "") and a label yields exactly the literal emitted for it (the emitted cases are
+// tied to the grammar by the emits clauses of buildTranslate).
+func (rv *renderedVariant) lookupSwitchShape(fset *token.FileSet, fd *ast.FuncDecl) {
+	name := fd.Name.Name
+	str := func(n ast.Node) string {
+		var b bytes.Buffer
+		format.Node(&b, fset, n)
+		return b.String()
+	}
+	bad := func(msg string) { rv.ShapeT = append(rv.ShapeT, name+": "+msg) }
+	zero, kind := "0", token.INT
+	if name == "TraceTranslate" {
+		zero, kind = `""`, token.STRING
+	}
+	if fd.Type.Params == nil || len(fd.Type.Params.List) != 1 || len(fd.Type.Params.List[0].Names) != 1 || str(fd.Type.Params.List[0].Type) != "int" {
+		bad("parameter list is not (c int)")
+		return
+	}
+	par := fd.Type.Params.List[0].Names[0].Name
+	if len(fd.Body.List) != 3 {
+		bad(fmt.Sprintf("body has %d statements, expected declaration; switch; return", len(fd.Body.List)))
+		return
+	}
+	res := ""
+	if ds, ok := fd.Body.List[0].(*ast.DeclStmt); ok {
+		if gd, ok := ds.Decl.(*ast.GenDecl); ok && gd.Tok == token.VAR && len(gd.Specs) == 1 {
+			vs := gd.Specs[0].(*ast.ValueSpec)
+			if len(vs.Names) == 1 && len(vs.Values) == 1 {
+				if bl, ok := vs.Values[0].(*ast.BasicLit); ok && bl.Kind == kind && bl.Value == zero {
+					res = vs.Names[0].Name
+				}
+			}
+		}
+	}
+	if res == "" {
+		bad("first statement is not `var conv T = " + zero + "`: " + str(fd.Body.List[0]))
+		return
+	}
+	sw, ok := fd.Body.List[1].(*ast.SwitchStmt)
+	if !ok || sw.Init != nil || sw.Tag == nil || str(sw.Tag) != par {
+		bad("second statement is not `switch " + par + " {...}`")
+		return
+	}
+	if rs, ok := fd.Body.List[2].(*ast.ReturnStmt); !ok || len(rs.Results) != 1 || str(rs.Results[0]) != res {
+		bad("last statement is not `return " + res + "`: " + str(fd.Body.List[2]))
+	}
+	intLit := func(e ast.Expr) bool {
+		if u, ok := e.(*ast.UnaryExpr); ok && u.Op == token.SUB {
+			e = u.X
+		}
+		bl, ok := e.(*ast.BasicLit)
+		return ok && bl.Kind == token.INT
+	}
+	labels := map[string]bool{}
+	for _, c := range sw.Body.List {
+		cc := c.(*ast.CaseClause)
+		if cc.List == nil {
+			bad("unexpected default clause: a code that is no token code must map to symbol 0 (error)")
+			continue
+		}
+		if len(cc.List) != 1 || !intLit(cc.List[0]) {
+			bad("case label is not one integer literal: " + str(cc))
+			continue
+		}
+		lab := str(cc.List[0])
+		if labels[lab] {
+			bad("duplicate case " + lab)
+		}
+		labels[lab] = true
+		okBody := false
+		if len(cc.Body) == 1 {
+			if as, ok := cc.Body[0].(*ast.AssignStmt); ok && as.Tok == token.ASSIGN && len(as.Lhs) == 1 && len(as.Rhs) == 1 && str(as.Lhs[0]) == res {
+				if name == "translate" {
+					okBody = intLit(as.Rhs[0])
+				} else if bl, ok := as.Rhs[0].(*ast.BasicLit); ok && bl.Kind == token.STRING {
+					okBody = true
+				}
+			}
+		}
+		if !okBody {
+			bad("case " + lab + ": body is not `" + res + " = <literal>`")
+		}
+		if name == "translate" {
+			rv.NTrans++
+		}
+	}
 }
 
 // abstractReduce replaces the concrete cases of `switch reduceIndex` by the schematic case.
@@ -229,6 +338,19 @@ func (v *Verifier) loadRendered(dir, contractsFile, workDir string) ([]*rendered
 		}
 		name := strings.TrimSuffix(filepath.Base(f), ".go")
 		rv, err := extractRendered(src, name, prelude, filepath.Join(workDir, "rendered"))
+		if err != nil {
+			return nil, nil, err
+		}
+		rvs = append(rvs, rv)
+	}
+	tsFiles, _ := filepath.Glob(filepath.Join(dir, "*.ts"))
+	for _, f := range tsFiles {
+		src, err := os.ReadFile(f)
+		if err != nil {
+			return nil, nil, err
+		}
+		name := strings.TrimSuffix(filepath.Base(f), ".ts")
+		rv, err := extractRenderedTS(src, name, prelude, filepath.Join(workDir, "rendered"))
 		if err != nil {
 			return nil, nil, err
 		}
